@@ -14,3 +14,9 @@ pub(crate) use poller::{
     ReplicationCycleContext,
     ReplicationHandle,
 };
+#[cfg(feature = "verif-hooks")]
+pub(crate) use poller::verif as poller_verif;
+#[cfg(feature = "verif-hooks")]
+pub use distributor::Mutation as VerifMutation;
+#[cfg(feature = "verif-hooks")]
+pub use poller::ReplicationCycleContext as VerifReplicationCycleContext;
